@@ -161,7 +161,7 @@ def jMeas (m : Meas) : Json :=
   Json.mkObj [("metrics", jList (jPair jStr (fun x => Json.mkObj [("v", jRat x.value), ("std", jOpt jRat x.std)])) m.metrics),
     ("elapsed", jRat m.elapsedSecs), ("steps", jInt m.steps), ("ckpt", jStr m.checkpointPath)]
 def jPMeas (m : PMeas) : Json :=
-  Json.mkObj [("seconds", jInt m.seconds), ("nanos", jInt m.nanos), ("steps", jInt m.stepCount),
+  Json.mkObj [("dur", jOpt (fun d => Json.mkObj [("s", jInt d.seconds), ("n", jInt d.nanos)]) m.duration), ("steps", jInt m.stepCount),
     ("metrics", jList (jPair jStr jRat) m.metrics)]
 
 /-! ### metadata -/
